@@ -146,6 +146,43 @@ def embedding(ctx, P):
                       okd and same, function=p, site=site(b, i),
                       missing=None if okd and same else ('issuer derives from %s but the signer is %s' % (sorted(ip), sorted(signer_params)) if okd else 'not derived from the key\'s own id'))
     ctx.floor(P + ':S13-3:issuer-floor', 'issuer subpacket constructions outside the parser', n, 18)
+    # helpers that build the issuer subpackets from one of their parameters but do not sign themselves: the rule moves to their
+    # call sites - the argument handed to the helper must be the key the caller signs with
+    helpers = {}
+    for p in sorted(set(unan)):
+        if '{closure' in p:
+            continue        # parameter 1 of a closure body is its environment, not a key
+        b = ctx.wrap(ctx.f.body(p))
+        ks = set()
+        for i, k, s_ in b.constructs(r'SubpacketData$'):
+            if s_['r']['v'] in ('IssuerFingerprint', 'IssuerKeyId'):
+                ks |= {int(tok[6:]) for tok in b.operand_origins(s_['r']['o'][0]) if tok.startswith('param:')}
+        if ks:
+            helpers[p] = ks
+    m = 0
+    for p, r in sorted(ctx.f.bodies.items()):
+        if r.get('derived') or '::tests::' in p or not helpers:
+            continue
+        b = ctx.wrap(r)
+        sites_ = [(i, t, h) for h in helpers for i, t in b.calls(re.escape(h) + '$')]
+        if not sites_:
+            continue
+        signer_params = set()
+        for i, t in b.calls(SIGNERS):
+            if len(t['args']) > 1:
+                signer_params |= {tok for tok in b.operand_origins(t['args'][1]) if tok.startswith('param:')}
+        for i, t, h in sites_:
+            for kidx in sorted(helpers[h]):
+                if kidx - 1 >= len(t['args']):
+                    continue
+                m += 1
+                ip = {tok for tok in b.operand_origins(t['args'][kidx - 1]) if tok.startswith('param:')}
+                ok = (not signer_params) or (not ip) or ip <= signer_params
+                ctx.check('%s:S13-3:issuer-helper-arg:%s:%s' % (P, p, h.split('::')[-1]), 'origin',
+                          'the key %s hands to %s (which writes the issuer subpackets from it) is the key it signs with' % (p.split('::')[-1], h.split('::')[-1]),
+                          ok, function=p, site=site(b, i),
+                          missing=None if ok else 'issuer helper gets %s but the signature is made with %s' % (sorted(ip), sorted(signer_params)))
+    ctx.note('issuer helpers (construct issuer subpackets from a parameter, do not sign): %s; %d call sites checked' % (sorted(helpers), m))
     ctx.note('issuer sites without a sign call in the same body (identity of signer not cross-checked): %s' % sorted(set(unan)))
     # PKESK recipient fields
     for fn, fld, want in (('from_session_key_v3', 'id', r'call:.*KeyDetails::legacy_key_id$'), ('from_session_key_v6', 'fingerprint', r'call:.*KeyDetails::fingerprint$')):
